@@ -209,6 +209,21 @@ async fn run_behaviour(tuftool: &str, c: &Value) -> Value {
                 a.extend(w.repo_args());
                 w.tt(&a)
             }
+            "owneraddstaged" => {
+                let d = w.fresh("stT");
+                let empty = w.p("nothing");
+                let src = w.staged.get("A").cloned().unwrap_or(empty);
+                let mut a: Vec<String> = vec!["delegation".into(), "--signing-role".into(), "targets".into(), "add-role".into(), "-o".into(), w.s(&d),
+                    "-i".into(), furl(&src.join("metadata")), "-e".into(), FAR.into(), "--delegated-role".into(), "A".into(), "-t".into(), cmd["thr"].to_string(),
+                    "-v".into(), cmd["ver"].to_string(), "-p".into(), "a*".into()];
+                a.extend(w.owner());
+                a.extend(w.repo_args());
+                let r = w.tt(&a);
+                if r.0 {
+                    w.staged.insert("T".into(), d);
+                }
+                r
+            }
             "update" => {
                 let role = cmd["role"].as_str().unwrap().to_string();
                 let d = w.fresh(&format!("st{role}"));
